@@ -46,7 +46,7 @@ def entries():
     L.append(ent("str.alphabet.menu", "ai: int, v: str", '("str", Nil, NOLEN, pick(ALPHA_MENU, ai), Nil, Nil)', "v",
                 pre=["0 <= ai <= 8", "len(v) <= 3"], timeout=120, pre_light=["0 <= ai <= 8", "len(v) <= 2"]))
     L.append(ent("str.alphabet.menu.len", "ai: int, n: int, v: str", '("str", Nil, (n, Nil, Nil), pick(ALPHA_MENU, ai), Nil, Nil)', "v",
-                pre=["0 <= ai <= 8", "len(v) <= 3"], timeout=120, pre_light=["0 <= ai <= 8", "len(v) <= 2"]))
+                pre=["0 <= ai <= 8", "len(v) <= 2"], timeout=120, pre_light=["0 <= ai <= 8", "len(v) <= 2"]))
     L.append(ent("str.contains", "sub: str, v: str", '("str", Nil, NOLEN, Nil, sub, Nil)', "v",
                 pre=["len(sub) <= 2", "len(v) <= 3"]))
     L.append(ent("str.alpha.contains.len", "al: str, sub: str, a: int, b: int, v: str",
